@@ -35,10 +35,7 @@ def main():
     rc, out = sh(["git", "-C", "/repo", "worktree", "add", "-q", "--detach", wt, "HEAD"])
     assert rc == 0, out
     meta = {"property": prop, "name": name}
-    saved = os.path.join(VERIF, ".evidence.saved")
-    if os.path.exists(saved):
-        shutil.rmtree(saved)
-    shutil.copytree(os.path.join(VERIF, "evidence"), saved)
+    evdir = tempfile.mkdtemp(prefix="seed_ev_", dir="/tmp")   # the evidence of a run against a changed tree is not evidence
     try:
         os.makedirs(os.path.join(wt, "MUTANTS", "x"))
         shutil.copy(os.path.join(src, "demo.py"), os.path.join(wt, "MUTANTS", "x", "demo.py"))
@@ -57,7 +54,7 @@ def main():
         meta["confirmed"] = confirmed
         print("confirmed:", confirmed, meta["suite_with_change"], "| demo clean exit", rc0, "| demo changed exit", rc1)
         results = {}
-        env = dict(os.environ, VERIF_REPO=wt)
+        env = dict(os.environ, VERIF_REPO=wt, VERIF_EVIDENCE_DIR=evdir)
         for pid in [prop] + others:
             rc, out = sh(["./check", pid, "--tier", "quick"], cwd=VERIF, env=env)
             line = next((l for l in out.splitlines() if l.startswith("VIOLATION")), "")
@@ -89,8 +86,7 @@ def main():
         return 0
     finally:
         sh(["git", "-C", "/repo", "worktree", "remove", "--force", wt])
-        shutil.rmtree(os.path.join(VERIF, "evidence"), ignore_errors=True)
-        shutil.move(saved, os.path.join(VERIF, "evidence"))
+        shutil.rmtree(evdir, ignore_errors=True)
         sh(["python3", "tools/py2lean"], cwd=VERIF)
 
 
